@@ -22,6 +22,7 @@ fn main() {
         Some("life03") => run_range::<simlib::grad::C03Engine>(seed, from, to, t, out),
         Some("sliders") => run_range::<simlib::io::C11DecodeEngine>(seed, from, to, t, out),
         Some("decode") => run_range::<simlib::io::C06Engine>(seed, from, to, t, out),
+        Some("storm") => run_range::<simlib::conc::C20StormEngine>(seed, from, to, t, out),
         Some("threads") => run_range::<simlib::conc::C20Engine>(seed, from, to, t, out),
         other => {
             eprintln!("harness: unknown miri scenario {other:?}");
